@@ -127,6 +127,40 @@ def handle (args : List String) (impl : String) : R Ans :=
       let bs := txt.toList.map Char.toNat
       let show' := fun (l : List (St c)) => if l.isEmpty then "-" else ",".intercalate (l.map (showK c))
       pure { model := show' (kmersFromAscii c bs), verdict := ← vList c impl (KSpec.windows c.K (bs.map KSpec.asciiToBase)) }
+    | "extend", [x, v, d] => do
+      let s ← st x; let v ← nat v
+      let right := d == "R"
+      pure { model := showK c (extend c s v right),
+             verdict := ← vK c impl (if right then KSpec.extendRight (toSeq c s) v else KSpec.extendLeft (toSeq c s) v) }
+    | "iter", [x] => do
+      let s ← st x
+      let txt := String.join ((toSeq c s).map toString)
+      pure { model := txt, verdict := vEq impl txt }
+    | "setimm", [x, pos, v] => do
+      -- `MerImmut::set`: the copy is changed, the original is not
+      let s ← st x; let pos ← nat pos; let v ← nat v
+      let model := s!"{showK c (setMut c s pos v)}|{showK c s}"
+      let verdict ← match impl.splitOn "|" with
+        | [y, x0] => do
+          let v1 ← vK c y ((toSeq c s).set pos v)
+          let v2 ← vK c x0 (toSeq c s)
+          pure (if v1 ≠ "ok" then v1 else v2)
+        | _ => pure "FAIL:malformed-answer"
+      pure { model, verdict }
+    | "setsliceimm", [x, pos, n, value] => do
+      let s ← st x; let pos ← nat pos; let n ← nat n; let value := BitVec.ofNat 64 (← hex value)
+      let model := s!"{showK c (setSliceMut c s pos n value)}|{showK c s}"
+      let verdict ← match impl.splitOn "|" with
+        | [y, x0] => do
+          let v1 ← vK c y (KSpec.setSlice (toSeq c s) pos n value)
+          let v2 ← vK c x0 (toSeq c s)
+          pure (if v1 ≠ "ok" then v1 else v2)
+        | _ => pure "FAIL:malformed-answer"
+      pure { model, verdict }
+    | "meta", [x] => do
+      let _s ← st x
+      let model := s!"len={c.K} empty={if c.K == 0 then 1 else 0} k={c.K} zero={showK c (empty c)}"
+      pure { model, verdict := vEq impl model }
     | "getexts", [x, e, d] => do
       -- `get_extensions(exts, dir)`
       let s ← st x
